@@ -41,7 +41,7 @@ type wsFlags struct {
 
 func loadWsFlags() wsFlags {
 	var f wsFlags
-	b, err := os.ReadFile("/verif/ws_flags.json")
+	b, err := os.ReadFile(verifRoot + "/ws_flags.json")
 	if err == nil {
 		json.Unmarshal(b, &f)
 	}
@@ -1359,10 +1359,10 @@ func wsParent(c *Ctx, prop string) {
 		return
 	}
 	// corpus first: minimised past failures and hand-picked witnesses
-	files, _ := filepathGlob("/verif/harness/corpus/" + prop + "/*.json")
+	files, _ := filepathGlob(verifRoot + "/harness/corpus/" + prop + "/*.json")
 	for _, extra := range []string{"C13", "C14", "C15"} {
 		if extra != prop {
-			more, _ := filepathGlob("/verif/harness/corpus/" + extra + "/*.json")
+			more, _ := filepathGlob(verifRoot + "/harness/corpus/" + extra + "/*.json")
 			files = append(files, more...)
 		}
 	}
